@@ -669,6 +669,69 @@ def r6_6(ctx, R, mus):
                                 if idx[0] == "proj" and strip_refs(idx[1]) == ("param", 2) and idx[2] and idx[2][-1] == ".0":
                                     ok_g = True
                 ctx.ob("R6.6", b, "release-guarded-by-vacancy-of-same-index@%s" % _site_label(b, bb), ok_g, b.loc(bb))
+                # ... and nothing else keeps an entry from being released: an iteration that does not reach the release has
+                # crossed an edge saying the slot is still occupied, or that this index IS the one excluded index (`Some(i) ==
+                # failed`: equality of the enumerated index with a value that does not depend on the loop), or that the element
+                # type needs no drop.  An ordering test (`Some(i) > failed`), a parity test, a bound ... skips written entries.
+                def occupied_edge(lab):
+                    x = lab[1]
+                    if lab[0] == "bool" and x[0] == "call" and (((x[1] or "").endswith("::is_none") and lab[2] is False) or
+                                                                 ((x[1] or "").endswith("::is_some") and lab[2] is True)):
+                        acc = [c for c in expr_calls(x) if c[1] in accs]
+                    elif (lab[0] == "variant" and lab[2] == "Some") or (lab[0] == "notvariants" and "None" in lab[2]):
+                        acc = [c for c in expr_calls(x) if c[1] in accs] if x[0] == "call" and x[1] in accs else []
+                    else:
+                        return False
+                    if not acc:
+                        return False
+                    idx = acc[0][2][-1]
+                    return any(c[3] == nx[3] for c in expr_calls(idx)) and idx[0] == "proj" and idx[2][-1] == ".0"
+
+                def excluded_edge(lab):
+                    if lab[0] != "bool":
+                        return False
+                    x = lab[1]
+                    ops = None
+                    if x[0] == "binop" and x[1] in ("Eq", "Ne"):
+                        ops, eq = (x[2], x[3]), x[1] == "Eq"
+                    elif x[0] == "call" and len(x[2]) == 2 and re.search(r"PartialEq(<.*>)?>?::(eq|ne)$", x[1] or ""):
+                        ops, eq = (x[2][0], x[2][1]), (x[1] or "").endswith("::eq")
+                    if ops is None or lab[2] is not eq:
+                        return False
+                    dep = [any(c[3] == nx[3] for c in expr_calls(o)) or (strip_refs(o)[0] == "call" and strip_refs(o)[3] == nx[3]) for o in ops]
+                    if dep[0] == dep[1]:
+                        return False
+                    mine = strip_refs(ops[0] if dep[0] else ops[1])
+                    if mine[0] == "agg" and mine[1].endswith("Option::Some") and mine[2]:
+                        mine = strip_refs(mine[2][0])
+                    return mine[0] == "proj" and mine[2][-1] == ".0"
+
+                def nodrop_edge(lab):
+                    x = lab[1]
+                    return lab[0] == "bool" and x[0] == "call" and (x[1] or "").endswith("core::mem::needs_drop") and lab[2] is False
+                from lib_flow import sensitive_paths, path_edge_labels
+                skipped = None
+                nseg = 0
+                labs_s = {}
+                try:
+                    for kind_, pth, know in sensitive_paths(b, fl, 2):
+                        steps_ = [j for j, x_ in enumerate(pth) if x_ == nx[3]]
+                        for j0, j1 in zip(steps_, steps_[1:]):
+                            if bb in pth[j0:j1]:
+                                continue
+                            nseg += 1
+                            ok_seg = False
+                            for j in range(j0, j1):
+                                if any(occupied_edge(l_) or excluded_edge(l_) or nodrop_edge(l_) for l_ in path_edge_labels(b, fl, pth, j, labs_s)):
+                                    ok_seg = True
+                                    break
+                            if not ok_seg and skipped is None:
+                                skipped = pth[j0:j1 + 1]
+                    det_s = "%d iterations without a release examined" % nseg if skipped is None else \
+                        "an iteration skips the release without the slot being occupied / the index being the excluded one: blocks %s" % (skipped,)
+                except RuntimeError as ex_:
+                    skipped, det_s = [], str(ex_)
+                ctx.ob("R6.6", b, "every-vacant-entry-but-the-excluded-one-is-released@%s" % _site_label(b, bb), skipped is None, b.loc(bb), det_s)
     ctx.floor("R6.6", "release-sites", n, 2)
 
 
